@@ -5,7 +5,7 @@
    (both profiles); unknown tables / columns in a projection, a filter or an ON condition are errors.
    Statements only; every proof is `exact <lemma>` from theories/. *)
 From Coq Require Import Sorting.Sorted Permutation.
-From MsiModel Require Import Base Sexp Value Expr Category Column CodePage Pool Table Container StreamName Propset Summary Query Package QueryProofs SelectTotal JoinNames.
+From MsiModel Require Import Base Sexp Value Expr Category Column CodePage Pool Table Container StreamName Propset Summary Query Package QueryProofs SelectTotal JoinNames JoinSem.
 From MsiGen Require Import GenConsts.
 Open Scope N_scope.
 
@@ -123,6 +123,40 @@ Theorem C12_unknown_on_column :
            |} (cols_of on) = false -> exec_join prof c p ts (JInner a b on) = Err.
 Proof. exact join_unknown_on_column. Qed.
 
+(* execution computes the denotational semantics of ANY select / join tree (nested joins, sub-selects, projections, filters) *)
+Theorem C12_select_semantics :
+  forall (prof : profile) (c : container) (p : pool) (ts : tables) (s : sel) (t : table)
+           (rows : list (list vref)),
+         bytes_ok c ->
+         (forall (n : str) (t' : table), find_table ts n = Some t' -> t_name t' = n) ->
+         exec_select prof c p ts s = Ok (t, rows) ->
+         exists vals : list (list value),
+           rmapM (row_to_values prof p) rows = Ok vals /\
+           sem_sel (env_of prof c p ts) s =
+           Some {| r_name := t_name t; r_cols := map c_name (t_cols t); r_rows := vals |}.
+Proof. exact exec_select_sem. Qed.
+
+Theorem C12_join_semantics :
+  forall (prof : profile) (c : container) (p : pool) (ts : tables) (j : join) (t : table)
+           (rows : list (list vref)),
+         bytes_ok c ->
+         (forall (n : str) (t' : table), find_table ts n = Some t' -> t_name t' = n) ->
+         exec_join prof c p ts j = Ok (t, rows) ->
+         exists vals : list (list value),
+           rmapM (row_to_values prof p) rows = Ok vals /\
+           sem_join (env_of prof c p ts) j =
+           Some {| r_name := t_name t; r_cols := map c_name (t_cols t); r_rows := vals |}.
+Proof. exact exec_join_sem. Qed.
+
+(* whenever the semantics is defined (all names known) execution succeeds *)
+Theorem C12_semantics_defined_exec_ok :
+  forall (prof : profile) (c : container) (p : pool) (ts : tables) (s : sel) (r : rel),
+         bytes_ok c ->
+         (forall (n : str) (t' : table), find_table ts n = Some t' -> t_name t' = n) ->
+         sem_sel (env_of prof c p ts) s = Some r ->
+         exists (t : table) (rows : list (list vref)), exec_select prof c p ts s = Ok (t, rows).
+Proof. exact sem_defined_exec_ok. Qed.
+
 Print Assumptions C12_filter.
 Print Assumptions C12_select_table.
 Print Assumptions C12_join_rows.
@@ -134,3 +168,6 @@ Print Assumptions C12_pkg_select_total.
 Print Assumptions C12_unknown_table.
 Print Assumptions C12_unknown_projection_or_filter.
 Print Assumptions C12_unknown_on_column.
+Print Assumptions C12_select_semantics.
+Print Assumptions C12_join_semantics.
+Print Assumptions C12_semantics_defined_exec_ok.
